@@ -5,7 +5,7 @@
     theorem holds for every such function. Only statements live here. *)
 From Coq Require Import List ZArith Bool.
 From V Require Import Gen.Params Lib.Hex ConnAccept.Model ConnAccept.Proofs ServerAccept.Model ServerAccept.Proofs EarlyData.Model EarlyData.Proofs
-                      AmpToken.TokenModel AmpToken.TokenProofs ServerAccept.Bridge ServerAccept.BridgeInstance.
+                      AmpToken.TokenModel AmpToken.TokenProofs ServerAccept.Bridge ServerAccept.BridgeInstance ServerAccept.Agree.
 From V Require SentPH.Model SentPH.ProofsBase SentPH.ProofsOps2 SentPH.ProofsOps3 SentPH.ProofsMain SendStream.Model EarlyData.Compose.
 Import ListNotations.
 Open Scope Z_scope.
@@ -516,3 +516,62 @@ Example C13_server_0rtt_example :
   zq (fst (srun c s0 ops)) = [] /\ n_handed (snd (srun c s0 ops)) = 2 /\ n_queued (snd (srun c s0 ops)) = 4.
 Proof. vm_compute. repeat split. Qed.
 Print Assumptions C13_server_0rtt_example.
+
+(** ---- round 6: agreement or clean failure, modelled part ---- *)
+
+(** The headline clause for the part that is modelled (version and authenticated connection IDs), composed over
+    the client's pre-authentication filter (ConnAccept [run], the model `hstrace` replays client traces through) and
+    the server's admission (ServerAccept [recv_core]).
+    Let the server create connection n for an Initial (DCID d, token class tk); newConnection then sets the transport
+    parameters (initial_source_connection_id, original_destination_connection_id, retry_source_connection_id) =
+    (newcid, od, rs) (connection.go:350-358). Hypothesis H_tls_tp (TLS authenticates transport parameters): exactly that
+    triple reaches the client's handler, after ANY sequence [ops] of genuine and injected packets. Then either
+      - the client accepts (OTPOk) and both sides agree: the client's handshake DCID is the server's SCID and the server
+        routes it to connection n; the server's original DCID is the client's first DCID; the Retry SCID the server
+        claims is the one the client recorded - none (then the Initial carried no valid Retry token and its DCID was the
+        client's first DCID) or that of a Retry in the input whose tag is valid for the first DCID, and the Initial
+        carried a valid Retry token for (first DCID, that SCID); the client's version is still the one it dialled with; or
+      - the client's run has ended with a terminal outcome (TRANSPORT_PARAMETER_ERROR, or an earlier close: Version
+        Negotiation, CONNECTION_CLOSE) and nothing queued behind is handled.
+    NOT modelled, TLS's: ALPN selection (H_tls_alpn) and 0-RTT acceptance (H_tls_0rtt); the server's version is the
+    version of the Initial it accepted - see C13_processed_version for the client's half of version agreement. *)
+Theorem C13_agree_or_fail_modelled :
+  forall tagf ver vers neg dc tok ops s' outs
+         c ss now size d sc tk addr intact newcid ss1 n od rs verified rtt e,
+  recv_core c ss now (SPinitial size d sc tk addr intact newcid) = (ss1, SNewConn n od rs verified rtt e) ->
+  run tagf (init_client ver vers neg dc tok) (ops ++ [OpTP newcid od rs]) = (s', outs) ->
+  (last outs ONone = OTPOk /\
+   version s' = ver /\ hsDCID s' = newcid /\ origDCID s' = dc /\ od = dc /\ rs = retrySCID s' /\
+   hget newcid (handlers ss1) = Some n /\
+   ((rs = None /\ d = dc /\ forall od0 rs0, tk <> TkRetry true od0 rs0) \/
+    (exists a, rs = Some a /\ tk = TkRetry true dc a /\
+               exists v t body, In (OpPkt (PRetry v a t body (tagf dc body v))) ops)))
+  \/
+  (terminal (last outs ONone) = true /\
+   forall more, run tagf (init_client ver vers neg dc tok) ((ops ++ [OpTP newcid od rs]) ++ more) = (s', outs)).
+Proof. exact agree_or_fail_modelled. Qed.
+Print Assumptions C13_agree_or_fail_modelled.
+
+(** Version agreement, client half: after any input, a long-header packet the client processes carries the version the
+    client dialled with (a server connection speaks the version of the Initial it accepted, so a client that processed
+    one of its packets runs that version). *)
+Theorem C13_processed_version : forall tagf ver vers neg dc tok ops1 ty sv scid k pn pl,
+  snd (step tagf (fst (run tagf (init_client ver vers neg dc tok) ops1)) (OpPkt (PLong ty sv scid k pn pl))) = OProcessed ->
+  sv = ver.
+Proof. exact processed_version. Qed.
+Print Assumptions C13_processed_version.
+
+(** non-vacuity: both branches occur. Plain handshake: agreement. A forged Retry with a good tag accepted first (the
+    attacker saw the first Initial): the genuine server, which sent no Retry, is refused with OTPError and the run stops. *)
+Example C13_agree_or_fail_example :
+  let dc := [1;2;3;4;5;6;7;8] in
+  let c := mkCfg false false [] [] in
+  recv_core c s0 1 (SPinitial 1200 dc [7] TkNone 0 true [5;5]) =
+    (fst (recv_core c s0 1 (SPinitial 1200 dc [7] TkNone 0 true [5;5])), SNewConn 0 dc None false 0 0) /\
+  snd (run ex_tagf (init_client 1 [1] false dc []) ([OpPkt (PLong TInitial 1 [5;5] dc 0 PlPing)] ++ [OpTP [5;5] dc None])) =
+    [OProcessed; OTPOk] /\
+  snd (run ex_tagf (init_client 1 [1] false dc [])
+         ([OpPkt (PRetry 1 [9;9] [3] [4] (ex_tagf dc [4] 1)); OpPkt (PLong TInitial 1 [5;5] [9;9] 0 PlPing)] ++ [OpTP [5;5] dc None])) =
+    [ORetryAccepted; OProcessed; OTPError].
+Proof. vm_compute. auto. Qed.
+Print Assumptions C13_agree_or_fail_example.
